@@ -802,7 +802,10 @@ func (s *State) applyFunction(name string, fn object.Object, args []object.Objec
 		s.cache = NewCache()
 		s.cacheGen = s.rootEnv.Generation()
 	}
-	if v, output, ok := s.cache.Get(function.CacheKey, args); ok {
+	// A function made by another interpreter state (unjson): the globals it sees are not this state's, its
+	// text and arguments don't identify it here.
+	foreign := s.rootEnv != nil && function.Env != nil && function.Env.Root() != s.rootEnv
+	if v, output, ok := s.cache.Get(function.CacheKey, args); ok && !foreign {
 		log.Debugf("Cache hit for %s %v -> %#v", function.CacheKey, args, v)
 		if len(output) > 0 {
 			_, err := s.Out.Write(output)
@@ -838,7 +841,7 @@ func (s *State) applyFunction(name string, fn object.Object, args []object.Objec
 			log.Warnf("output: %v", err)
 		}
 	}
-	if after != before {
+	if after != before || foreign {
 		log.Debugf("Cache miss for %s %v, %d get misses", function.CacheKey, args, after-before)
 		// Propagate the can't cache: the caller's result depends on whatever made this call uncacheable too
 		// (e.g. a mutable global read by this callee).
